@@ -531,9 +531,9 @@ def run(pid, tier, replay_file=None):
         if not r.ok:
             raise MachineryError("Trace_Heap failed:\n" + r.raw_tail[-2500:])
         return {l["reject"]: l["clauses"] for l in r.lines}, r.distinct
-    size = max(100, (len(events) + 11) // 12)
+    size = max(100, min(600, (len(events) + 7) // 8))
     parts = [events[i:i + size] for i in range(0, len(events), size)]
-    with ThreadPoolExecutor(max_workers=12) as ex:
+    with ThreadPoolExecutor(max_workers=8) as ex:
         for rej, n in ex.map(chunk_run, parts):
             rejected.update(rej)
             adj_states += n
